@@ -4,12 +4,13 @@ import itertools
 from hypothesis import strategies as st
 
 from .. import gen
+from ..driver import call
 from ..history import Run, draw_symbol
 from ..oracle.schema import parikh, schema
 from ..run import hyp_search, mix
 from .c01 import symbol_subset
 
-RULE = ('add-only histories in arbitrary order (add_child and xml_* instance assignment): (a) ALL sequences of <=3 adds '
+RULE = ('add-only histories in arbitrary order (add_child, add_child with forward, xml_* instance assignment): (a) ALL sequences of <=3 adds '
         'over a deterministic 6-symbol subset of every type; (b) Hypothesis-drawn adaptive sequences (<=14 adds quick, '
         '<=30 thorough) where each next symbol is drawn from the oracle classes prefix / compatible / incompatible / '
         'foreign.  Oracle after every add that returned normally: completable(multiset of held names) on the '
@@ -29,9 +30,12 @@ def F(run, observed):
 def step(run, op):
     r = run.apply(op)
     if r is not None and r.ok and run.dfa is not None:
-        held = parikh(run.names())
-        if not run.dfa.completable(held):
-            return F(run, {'held': run.names()})
+        # what the element itself reports as held (a refused forward add must not have smuggled a child in)
+        rc = call(run.e.get_children, True)
+        names = [c.name for c in rc.value] if rc.ok else run.names()
+        for held in (parikh(run.names()), parikh(names)):
+            if not run.dfa.completable(held):
+                return F(run, {'held': sorted(held.items())})
     return None
 
 
@@ -102,8 +106,15 @@ def run_shard(ctx, shard, acc):
         for _ in range(n):
             a, c = draw_symbol(data, run, {'prefix': 4, 'compatible': 5, 'incompatible': 4, 'foreign': 1})
             run.flags.add('offer-' + c)
-            op = ['dot_inst', a] if (c != 'foreign' and data.draw(st.integers(0, 4)) == 0
-                                     and a not in run.names()) else ['add', a]
+            z = data.draw(st.integers(0, 5))
+            if c != 'foreign' and z == 0 and a not in run.names():
+                op = ['dot_inst', a]
+            elif c != 'foreign' and z == 1:
+                # a forwarded add; whether it is accepted or refused, what the element holds afterwards (by its own
+                # account) must stay completable
+                op = ['add_fwd', a, data.draw(st.integers(0, max(run.leaf_counts.get(a, 1) - 1, 0)))]
+            else:
+                op = ['add', a]
             f = step(run, op)
             if f:
                 acc.case({'element': run.el, 'ops': run.ops}, nontrivial(run), len(run.ops))
